@@ -100,13 +100,13 @@ func (fr *Frame) callFunction(b *ssa.BasicBlock, st *State, callee *ssa.Function
 		return v
 	}
 	// natively modelled callees (math/big etc.) do not retain their arguments; everything else might
-	if !(fc.eng.inRepo(callee) && callee.Blocks != nil && fr.depth < 4 && fc.eng.inlinable(callee) && fc.eng.fnContract[callee] == nil) {
+	if !(fc.eng.inRepo(callee) && callee.Blocks != nil && fr.depth < 4 && fc.eng.inlinable(callee) && fc.eng.contractOf(callee) == nil) {
 		for _, a := range args {
 			fc.escapeVal(a)
 		}
 	}
 	// 2. contract
-	if c := fc.eng.fnContract[callee]; c != nil && !c.Inline {
+	if c := fc.eng.contractOf(callee); c != nil && !c.Inline {
 		return fr.contractCall(b, st, callee, c, args, resT, pos, "true")
 	}
 	// 3. inline small repo functions
@@ -291,7 +291,7 @@ func (fr *Frame) contractCall(b *ssa.BasicBlock, st *State, callee *ssa.Function
 	guard := sAnd(fr.reach[b.Index], extraGuard)
 	// requires
 	for _, rq := range c.Requires {
-		env := &SpecEnv{fr: fr, vars: penv, now: st, old: st, pkg: callee.Pkg.Pkg}
+		env := &SpecEnv{fr: fr, vars: penv, now: st, old: st, pkg: fnPkg(callee)}
 		t, sks := fr.evalGoal(rq.E, env)
 		fc.obligeSplit("pre", fr.prefix+shortFn(callee)+"."+rq.Label, guard, t, pos, fr.safetyProps(), true, sks)
 	}
@@ -302,7 +302,7 @@ func (fr *Frame) contractCall(b *ssa.BasicBlock, st *State, callee *ssa.Function
 		fc.assumptions["contract of "+shortFn(callee)+" has no modifies clause: callers havoc the whole heap"] = true
 	} else {
 		for _, m := range c.Modifies {
-			env := &SpecEnv{fr: fr, vars: penv, now: old, old: old, pkg: callee.Pkg.Pkg}
+			env := &SpecEnv{fr: fr, vars: penv, now: old, old: old, pkg: fnPkg(callee)}
 			fr.havocLoc(st, m, env)
 		}
 		// allocation may advance
@@ -345,13 +345,13 @@ func (fr *Frame) contractCall(b *ssa.BasicBlock, st *State, callee *ssa.Function
 		}
 	}
 	for _, pr := range c.Premises {
-		env := &SpecEnv{fr: fr, vars: renv, now: st, old: old, pkg: callee.Pkg.Pkg}
+		env := &SpecEnv{fr: fr, vars: renv, now: st, old: old, pkg: fnPkg(callee)}
 		t, qs := fr.evalFact(pr.E, env)
 		fc.addFactQ(guard, t, qs)
 		fc.assumptions[fmt.Sprintf("premise on %s (assumed by callers, not proved): %s", shortFn(callee), pr.Src)] = true
 	}
 	for _, en := range c.Ensures {
-		env := &SpecEnv{fr: fr, vars: renv, now: st, old: old, pkg: callee.Pkg.Pkg}
+		env := &SpecEnv{fr: fr, vars: renv, now: st, old: old, pkg: fnPkg(callee)}
 		t, qs := fr.evalFact(en.E, env)
 		fc.addFactQ(guard, t, qs)
 		// a post-condition `len(result) == <numeral>` makes later appends of the result unrollable
@@ -625,7 +625,7 @@ func (fr *Frame) execInvoke(b *ssa.BasicBlock, st *State, ins ssa.CallInstructio
 		fc.addFact("true", sEq(g, sAnd(saved, cond)))
 		fr.reach[b.Index] = g
 		fr.callAsserts(b, bst, calleeName(m), cargs, pos)
-		if c := fc.eng.fnContract[m]; c != nil {
+		if c := fc.eng.contractOf(m); c != nil {
 			res = fr.contractCall(b, bst, m, c, cargs, resT, pos, "true")
 		} else if fc.eng.inlinable(m) && fr.depth < 4 {
 			res = fr.inlineCall(b, bst, m, cargs, resT, pos)
@@ -1130,4 +1130,27 @@ func plainTarget(t types.Type) bool {
 		}
 	}
 	return true
+}
+
+// contractOf: the contract of a function; an instantiation of a generic function is covered by the contract of
+// the generic function it was instantiated from
+func (e *Engine) contractOf(fn *ssa.Function) *Contract {
+	if c := e.fnContract[fn]; c != nil {
+		return c
+	}
+	if o := fn.Origin(); o != nil {
+		return e.fnContract[o]
+	}
+	return nil
+}
+
+// fnPkg: the types package of a function; instantiations of generic functions have no package of their own
+func fnPkg(fn *ssa.Function) *types.Package {
+	if fn.Pkg != nil {
+		return fn.Pkg.Pkg
+	}
+	if o := fn.Origin(); o != nil && o.Pkg != nil {
+		return o.Pkg.Pkg
+	}
+	return nil
 }
